@@ -33,8 +33,8 @@ PERCALL = {
     'gr_segment', 'gr_slot', 'gr_char_info', 'regbank', 'graphite2::Error', 'graphite2::vm::Machine::Code::decoder',
     'graphite2::vm::Machine::Code::decoder::limits', '(anonymous namespace)::context', 'graphite2::Zones::Debug', 'JustifyTotal',
 }
-AMBIGUOUS_PREFIX = ('graphite2::RuleEntry', 'graphite2::Position', 'graphite2::Rect', 'graphite2::BBox', 'graphite2::SlantBox', 'graphite2::FeatureVal',
-                    'gr_feature_val', 'graphite2::Vector', 'graphite2::_utf_iterator', 'graphite2::json', 'std::', 'anon',
+AMBIGUOUS_PREFIX = ('graphite2::objectid', 'graphite2::dslot', 'graphite2::RuleEntry', 'graphite2::Position', 'graphite2::Rect', 'graphite2::BBox', 'graphite2::SlantBox', 'graphite2::FeatureVal',
+                    'gr_feature_val', 'graphite2::Vector', 'graphite2::_utf_iterator', 'std::', 'anon',
                     'graphite2::Features', 'graphite2::_utf_codec', '(anonymous namespace)::_glat_iterator', 'graphite2::be', 'graphite2::telemetry',
                     '(anonymous namespace)::u16', 'union.', 'graphite2::TtfUtil', 'graphite2::vm::Machine::Code::decoder::context',
                     'graphite2::Slot::(anonymous', 'graphite2::FeatureRef::(anonymous', 'graphite2::CharInfo::(anonymous', 'graphite2::_glat_iterator',
@@ -67,6 +67,8 @@ def class_of(name):
         return 'percall'
     if name.startswith('(anonymous namespace)::') and name.split('::')[-1] in ('context',):
         return 'percall'
+    if name.startswith('graphite2::json') or name in ('_IO_FILE',):
+        return 'logger'
     for p in AMBIGUOUS_PREFIX:
         if name.startswith(p):
             return 'ambiguous'
@@ -208,6 +210,8 @@ class Eff:
             return 'shared:' + sn
         if c == 'percall':
             return 'percall:' + sn
+        if c == 'logger':
+            return 'logger:' + sn       # the tracing build's json logger (Face::m_logger / global_log): excluded from the contract by the documentation
         if c == 'unknown':
             self.unknown_structs.add(sn)
             return 'unknownstruct:' + sn
